@@ -8,9 +8,14 @@ import (
 	"errors"
 	"fmt"
 	"io"
+	"sync"
 	"testing"
 
+	"github.com/yuin/goldmark"
+	"github.com/yuin/goldmark/ast"
+	"github.com/yuin/goldmark/renderer"
 	"github.com/yuin/goldmark/text"
+	"github.com/yuin/goldmark/util"
 	"pgregory.net/rapid"
 
 	"verif/gen"
@@ -19,7 +24,7 @@ import (
 
 func TestMain(m *testing.M) {
 	kit.Register("faults", faultsOracle)
-	kit.Describe("case = (configuration, document, API in {Convert, Parse+Render}, writer kind in {plain io.Writer, io.Writer that also has WriteByte/WriteString/WriteRune, caller bufio of 16/4096/65536 bytes}, fault mode in {fail from offset k on, fail always, fail once then succeed}); for outputs <= 600 bytes every offset k in 0..len+1 is enumerated, for large outputs (5-40 KiB) every offset within 3 bytes of a multiple of 4096 plus an arithmetic grid drawn by the generator; oracle: writer reported failure => error non-nil and errors.Is(err, injected), bytes accepted before the first failure are a prefix of the fault-free output, no panic; no failure => nil error and identical bytes; evaluations = fault runs; non-trivial = a case with at least one offset strictly inside the output; distinct by hash of the case",
+	kit.Describe("case = (configuration, optionally plus a user-supplied node renderer for ThematicBreak and CodeSpan that checks every write and returns the writer's error, document (large ones always contain a unit that reaches WriteRune / WriteByte / WriteString paths: numeric references to multi-byte code points, entities, titles, alt texts), API in {Convert, Parse+Render}, writer kind in {plain io.Writer, io.Writer that also has WriteByte/WriteString/WriteRune, caller bufio of 16/4096/65536 bytes}, fault mode in {fail from offset k on, fail always, fail once then succeed}); for outputs <= 600 bytes every offset k in 0..len+1 is enumerated, for large outputs (5-40 KiB) every offset within 3 bytes of a multiple of 4096 plus an arithmetic grid drawn by the generator; oracle: writer reported failure => error non-nil and errors.Is(err, injected), bytes accepted before the first failure are a prefix of the fault-free output, no panic; no failure => nil error and identical bytes; evaluations = fault runs; non-trivial = a case with at least one offset strictly inside the output; distinct by hash of the case",
 		"the injected error is a sentinel compared with errors.Is")
 	kit.Main(m, "C14")
 }
@@ -83,8 +88,60 @@ func (w richWriter) WriteByte(c byte) error {
 func (w richWriter) WriteString(s string) (int, error) { return w.faultWriter.Write([]byte(s)) }
 func (w richWriter) WriteRune(r rune) (int, error)     { return w.faultWriter.Write([]byte(string(r))) }
 
-func runOnce(cfg gen.Config, src []byte, api, wrap int, fw *faultWriter) (err error) {
-	md := cfg.MD()
+// strictRenderer is a user-supplied node renderer that, unlike the built-in ones, checks the result of
+// every write and returns the writer's error to Render (the documented way for a NodeRendererFunc to fail).
+type strictRenderer struct{}
+
+func (strictRenderer) RegisterFuncs(reg renderer.NodeRendererFuncRegisterer) {
+	reg.Register(ast.KindThematicBreak, func(w util.BufWriter, source []byte, n ast.Node, entering bool) (ast.WalkStatus, error) {
+		if !entering {
+			return ast.WalkContinue, nil
+		}
+		if _, err := w.WriteString("<hr>"); err != nil {
+			return ast.WalkStop, err
+		}
+		if err := w.WriteByte('\n'); err != nil {
+			return ast.WalkStop, err
+		}
+		return ast.WalkContinue, nil
+	})
+	reg.Register(ast.KindCodeSpan, func(w util.BufWriter, source []byte, n ast.Node, entering bool) (ast.WalkStatus, error) {
+		tag := "<code>"
+		if !entering {
+			tag = "</code>"
+		}
+		if _, err := w.Write([]byte(tag)); err != nil {
+			return ast.WalkContinue, err // an error with a non-stop status must end the walk as well
+		}
+		return ast.WalkContinue, nil
+	})
+}
+
+var (
+	strictMu sync.Mutex
+	strictMD = map[gen.Config]goldmark.Markdown{}
+)
+
+func mdFor(cfg gen.Config, strict bool) goldmark.Markdown {
+	if !strict {
+		return cfg.MD()
+	}
+	strictMu.Lock()
+	defer strictMu.Unlock()
+	if m, ok := strictMD[cfg]; ok {
+		return m
+	}
+	m := goldmark.New(
+		goldmark.WithExtensions(cfg.Extensions()...),
+		goldmark.WithParserOptions(cfg.ParserOptions()...),
+		goldmark.WithRendererOptions(append(cfg.RendererOptions(), renderer.WithNodeRenderers(util.Prioritized(strictRenderer{}, 1)))...),
+	)
+	strictMD[cfg] = m
+	return m
+}
+
+func runOnce(cfg gen.Config, src []byte, api, wrap int, fw *faultWriter, strict bool) (err error) {
+	md := mdFor(cfg, strict)
 	var w io.Writer = fw
 	if wrap == -1 {
 		w = richWriter{fw}
@@ -148,8 +205,9 @@ func faultsOracle(c *kit.Case) error {
 		src = bytes.Repeat(src, rep)
 	}
 	api, wrap, mode := int(c.Ints["api"]), int(c.Ints["wrap"]), int(c.Ints["mode"])
+	strict := c.Ints["strict"] != 0
 	var ref bytes.Buffer
-	if err := cfg.MD().Convert(src, &ref); err != nil {
+	if err := mdFor(cfg, strict).Convert(src, &ref); err != nil {
 		return kit.Violf("convert-error", "fault-free conversion failed: %v", err)
 	}
 	out := ref.Bytes()
@@ -171,7 +229,7 @@ func faultsOracle(c *kit.Case) error {
 					err = kit.Violf("panic", "panic with fault offset %d: %v", k, r)
 				}
 			}()
-			err2 := runOnce(cfg, src, api, wrap, fw)
+			err2 := runOnce(cfg, src, api, wrap, fw, strict)
 			if fw.failed {
 				if err2 == nil {
 					err = kit.Violf("error-swallowed", "writer failed at offset %d (mode %d, bufio %d, api %d) but nil was returned; output length %d", k, mode, wrap, api, len(out))
@@ -210,6 +268,14 @@ func clip(b []byte) string {
 	return string(b)
 }
 
+var richUnits = []string{
+	"caf&#233; &#x4e2d;&#25991; &#128512; &auml;&ouml; &lt;&amp;&quot; \\* \\_ <b>raw</b> \"q\" 'a'\n\n",
+	"[l&#233;](u&#233; \"t&#233;&#x4e2d;\") ![a&#233;*e*](s%20&#x4e2d; 't<>&') <http://e.x/&#233;> `c&#233;<>`\n\n***\n\n",
+	"# h&#233; {#i&#233;}\n\n> q&#128512;\n\n- i&#x10FFFF;&#0;&#xD800;\n\n```l&#233;\nx&#233;<\n```\n\n    c<&#233;\n\n---\n\n",
+	"| a&#233; | `b\\|c` |\n|:--|--:|\n| &#x4e2d; | ~~d&#233;~~ |\n\nf[^1] www.e&#233;.com -- \"q&#233;\"...\n\n[^1]: n&#233;\n\nt\n: d&#233;\n\n- [x] k&#233;\n\n",
+	"日本&#233;\n語 \\ &#233;  \nx\\\ny <!-- c&#233; --> <?p&#233;?>\n\n<div>\nh&#233;\n</div>\n\n___\n\n",
+}
+
 func TestKnown(t *testing.T)  { kit.RunKnown(t) }
 func TestReplay(t *testing.T) { kit.RunReplay(t) }
 
@@ -221,6 +287,9 @@ func TestFaults(t *testing.T) {
 		c.I("api", int64(rapid.IntRange(0, 1).Draw(t, "api")))
 		c.I("wrap", int64(rapid.SampledFrom([]int{0, 0, -1, 16, 4096, 65536}).Draw(t, "wrap")))
 		c.I("mode", int64(rapid.SampledFrom([]int{0, 0, 0, 0, 1, 2}).Draw(t, "mode")))
+		if rapid.IntRange(0, 3).Draw(t, "strict") == 0 {
+			c.I("strict", 1)
+		}
 		large := rapid.IntRange(0, 5).Draw(t, "large") == 0
 		if large {
 			// large documents are repetitions of a repository test input (benign
@@ -236,6 +305,10 @@ func TestFaults(t *testing.T) {
 				src = append(src, '\n')
 			}
 			src = append(src, '\n')
+			// every large document also carries a unit that drives each writer method the renderers use
+			// (WriteRune through numeric references to multi-byte code points, WriteByte/WriteString through
+			// escapes, titles, alt texts, entities), so that all of them run after the failure as well
+			src = append(src, rapid.SampledFrom(richUnits).Draw(t, "rich")...)
 			c.B("src", src)
 			rep := (5000 + rapid.IntRange(0, 7000).Draw(t, "size")) / len(src)
 			if rep < 2 {
@@ -254,6 +327,9 @@ func TestFaults(t *testing.T) {
 			kit.R.ClassN("fault-runs", int64(lastRuns))
 			kit.R.ClassN("fault-runs-interior-offset", int64(lastInterior))
 			kit.R.Class(fmt.Sprintf("mode:%d", c.Ints["mode"]), fmt.Sprintf("bufio:%d", c.Ints["wrap"]))
+			if c.Ints["strict"] != 0 {
+				kit.R.Class("error-propagating-custom-renderer")
+			}
 			if lastInterior > 0 {
 				kit.R.NonTrivial(c)
 			}
